@@ -98,7 +98,7 @@ def gen_cf_case(r, one_pixel=False, fam=None):
     c = {"area": spec, "flipx": r.random() < 0.2, "flipy": r.random() < 0.4, "mode": 0, "k": None,
          "lookup": r.choice(["var", "var", "none", "gm", "xy", "from_cf"]),
          "dims": r.choice([["y", "x"], ["yc", "xc"], ["row", "col"]]), "time": r.random() < 0.25,
-         "drop_wkt": False}
+         "drop_wkt": False, "future": r.random() < 0.15}
     if kind == "deg":
         c["xname"], c["yname"] = "longitude", "latitude"
         c["xunit"], c["yunit"] = r.choice([("degrees_east", "degrees_north"), ("degrees", "degrees"), ("degree_east", "degree_north")])
@@ -217,8 +217,6 @@ def judge_cf(c, tags, o):
                 break
     if o.get("repeat_same") is False:
         bad.append(("C20.cf.history", "a second load_cf_area of the same dataset gave a different area or the dataset was modified"))
-    if c.get("future") and o.get("type") != "AreaDefinition":
-        pass
     if not c["flipx"] and not c["flipy"] and o["crs_eq"] and o["eq"] is not True:
         bad.append(("C20.cf.eq." + cls, "north-to-south round trip: loaded area != original (== gives %s)" % o["eq"]))
     if not (o["crs_eq"] or o["crs_op"]):
@@ -233,6 +231,7 @@ def judge_raster(c, tags, o):
         return [("C20.raster.error", "raster round trip failed: " + o["error"])]
     want = expected_extent(spec, False, c["sn"])
     tx, ty = tolerances(spec)
+    vx, vy = tolerances(spec, 24)
     xs, ys = centres(spec)
     if c["sn"]:
         ys = ys[::-1]
@@ -243,7 +242,7 @@ def judge_raster(c, tags, o):
             bad.append(("C20.raster.shape." + cls, "shape %s, raster is %s" % (p["shape"], [spec["h"], spec["w"]])))
         if (tags["dyadic"] and p["extent"] != want) or not close4(p["extent"], want, tx, ty):
             bad.append(("C20.raster.extent." + cls, "extent %s, required %s" % (p["extent"], want)))
-        elif not (vec_close(p["xvec"], xs, tx) and vec_close(p["yvec"], ys, ty)):
+        elif not (vec_close(p["xvec"], xs, vx) and vec_close(p["yvec"], ys, vy)):
             bad.append(("C20.raster.pixel_location." + cls, "pixel centres differ from the raster's cell centres"))
         if not c["sn"] and p["crs_eq"] and p["eq"] is not True:
             bad.append(("C20.raster.eq." + cls, "north-up round trip: area != original (== gives %s)" % p["eq"]))
@@ -271,6 +270,8 @@ def judge_geobox(c, tags, o):
         bad.append(("C20.geobox.pixel_location" + cls, "centre of cell (0,0) %s is not the area's pixel (0,0) %s" % (o["centre00"], o["area_c00"])))
     if not (o["crs_eq"] or o["crs_op"]):
         bad.append(("C20.geobox.crs", "GeoBox CRS differs from the area's"))
+    if o.get("repeat_same") is False:
+        bad.append(("C20.geobox.history", "a second to_odc_geobox() of the same area gave a different GeoBox"))
     return bad
 
 
@@ -283,6 +284,8 @@ def judge_cartopy(c, tags, o):
         bad.append(("C20.cartopy.bounds", "bounds %s, required the extent reordered %s" % (o["bounds"], [x0, x1, y0, y1])))
     if not (o["crs_eq"] or o["crs_op"]):
         bad.append(("C20.cartopy.crs", "cartopy CRS differs from the area's"))
+    if o.get("repeat_same") is False:
+        bad.append(("C20.cartopy.history", "a second to_cartopy_crs() gave different bounds or the area's extent changed"))
     return bad
 
 
@@ -322,8 +325,8 @@ def coq_cf(c, o):
 
 def coq_raster(c, o):
     spec = c["area"]
-    return "mk_raster_case %s %d %d %s %s %s %s %d %d %s %s" % (
-        f4(spec["extent"]), spec["w"], spec["h"], bl(c["sn"]), f6(o["transform"]), f4(o["rio"]["extent"]), f4(o["gdal"]["extent"]),
+    return "mk_raster_case %s %d %d %s %s %s %s %s %d %d %s %s" % (
+        f4(spec["extent"]), spec["w"], spec["h"], bl(c["sn"]), f6(o["transform"]), f4(o["bounds"]), f4(o["rio"]["extent"]), f4(o["gdal"]["extent"]),
         o["rio"]["shape"][1], o["rio"]["shape"][0], flist(o["rio"]["xvec"]), flist(o["rio"]["yvec"]))
 
 
@@ -370,16 +373,16 @@ def build_payload(ctx):
                         c = {"area": spec, "flipx": flipx, "flipy": flipy, "mode": 1 if unit == "km" else 0, "k": 1000.0 if unit == "km" else None,
                              "lookup": "var", "dims": ["y", "x"], "time": False, "drop_wkt": False,
                              "xname": "projection_x_coordinate", "yname": "projection_y_coordinate", "xunit": unit, "yunit": unit}
-                        cf.append((c, {"fam": "laea", "kind": "m", "dyadic": True, "upside_down": False, "unit": unit, "one_pixel": False}))
+                        cf.append((c, {"fam": "laea", "kind": "m", "dyadic": True, "upside_down": False, "unit": unit, "one_pixel": False, "small_scope": True}))
     raster = []
     for w in range(1, top + 1):
         for h in range(1, top + 1):
             for sn in (False, True):
                 spec = {"crs": POOL[0]["crs"], "extent": [-8192.0, 4096.0, -8192.0 + 1024.0 * w, 4096.0 + 512.0 * h], "w": w, "h": h}
-                raster.append(({"area": spec, "sn": sn, "by_name": False}, {"fam": "laea", "kind": "m", "dyadic": True, "upside_down": False}))
+                raster.append(({"area": spec, "sn": sn, "by_name": False}, {"fam": "laea", "kind": "m", "dyadic": True, "upside_down": False, "small_scope": True}))
     for _ in range(ctx.n(160, 1600)):
         spec, tags = gen_area(r, 1, 20)
-        raster.append(({"area": spec, "sn": r.random() < 0.35, "by_name": r.random() < 0.25}, tags))
+        raster.append(({"area": spec, "sn": r.random() < 0.35, "by_name": r.random() < 0.25, "future": r.random() < 0.15}, tags))
     geobox = []
     for _ in range(ctx.n(260, 3000)):
         spec, tags = gen_area(r, 1)
@@ -407,8 +410,11 @@ def run(ctx):
                 "m/meters/metres/km/degrees*/radians, variable-, search-, grid-mapping- and from_cf-based lookup, extra time dimension, "
                 "grid mapping with or without crs_wkt; plus every shape 2..4 (quick) / 2..7 (thorough) squared x 4 orientations x m/km on one dyadic "
                 "laea grid and every raster shape from 1x1; rasters north-up and south-up through rasterio MemoryFile GeoTIFFs and a duck-typed gdal "
-                "dataset; rotated transforms. Oracle tolerances: extent and pixel centres within 1e-9 pixel + 8 ulp of the coordinate, "
-                "also where PROJ converts km; exact equality on dyadic grids with coordinates in CRS units. "
+                "dataset; rotated transforms; ~15% of CF/raster cases with features.future_geometries on; every CF load, "
+                "GeoBox and cartopy conversion is repeated once on the same object (history: same result, inputs untouched). Oracle tolerances: "
+                "1e-9 pixel + the derived binary64 bound of the chain (12 ulp of the largest coordinate for extents, 24 for pixel-centre "
+                "vectors, derivation in harness/c20.tolerances), also where PROJ converts km (checked to be multiplication by 1000 within 2 ulp); "
+                "exact equality on dyadic grids with coordinates in CRS units. "
                 "A case is non-trivial when the conversion ran end to end (or took the modelled raise path); distinct = distinct inputs")
     ctx.exhaustive = True      # the small-scope part: all shapes <= 4x4 (quick) / 7x7 (thorough) x orientations x m/km, rasters from 1x1
     pl = build_payload(ctx)
@@ -417,6 +423,7 @@ def run(ctx):
     for lib, ok in sorted(obs["libs"].items()):
         ctx.count("lib_%s_%s" % (lib, "present" if ok else "MISSING"))
     texts = []
+    sampled = set()
     worst = {}
     coqers = {"cf": ("chk_cf", coq_cf), "raster": ("chk_raster", coq_raster), "geobox": ("chk_geobox", coq_geobox),
               "cartopy": ("chk_cartopy", coq_cartopy)}
@@ -431,10 +438,20 @@ def run(ctx):
         for (c, tags), o in zip(pl[sect], obs[sect]):
             fails = JUDGES[sect](c, tags, o)
             ran = not ("setup_error" in o or "error" in o and sect != "cf")
-            ctx.case((sect, repr(sorted(c.items(), key=str))), nontrivial=ran,
-                     sample={sect: {"area": c["area"], "variant": {k: v for k, v in c.items() if k != "area"},
-                                    "impl": {k: o.get(k) for k in ("extent", "shape", "error", "affine", "bounds") if k in o}
-                                    or {p: o[p]["extent"] for p in ("rio", "gdal") if p in o}}})
+            x0_, y0_, x1_, y1_ = c["area"]["extent"]
+            kind = {"cf": "cf." + ("one_pixel_axis" if tags.get("one_pixel") else "unit_" + tags.get("unit", "?")),
+                    "raster": "raster." + ("south_up" if c.get("sn") else "north_up"),
+                    "geobox": "geobox." + ("flipped_extent" if (x0_ > x1_ or y0_ > y1_) else "regular"),
+                    "cartopy": "cartopy"}[sect]
+            sample = None
+            if ran and kind not in sampled and (sect != "cf" or tags.get("unit") in ("m", "km", "rad") or tags.get("one_pixel")):
+                sampled.add(kind)
+                sample = {kind: {"area": c["area"], "variant": {k: v for k, v in c.items() if k != "area"},
+                                 "impl": {k: o.get(k) for k in ("extent", "shape", "error", "affine", "bounds") if k in o}
+                                 or {p: o[p]["extent"] for p in ("rio", "gdal") if p in o}}}
+            ctx.case((sect, repr(sorted(c.items(), key=str))), nontrivial=ran, sample=sample)
+            if tags.get("small_scope"):
+                ctx.count(sect + ".small_scope_enumeration")
             label = sect + "." + tags["fam"]
             ctx.count(label)
             if sect == "cf":
@@ -457,6 +474,15 @@ def run(ctx):
                 if "rio" in o:
                     ctx.count("raster.crs_%s" % ("equal" if o["rio"]["crs_eq"] else "same_grid_only" if o["rio"]["crs_op"] else "DIFFERENT"))
             ctx.count("%s.%s" % (sect, "dyadic" if tags["dyadic"] else "nondyadic"))
+            x0_, y0_, x1_, y1_ = c["area"]["extent"]
+            ctx.count("%s.%s" % (sect, "extent_flipped" if (x0_ > x1_ or y0_ > y1_) else "extent_regular"))
+            if min(c["area"]["w"], c["area"]["h"]) == 1:
+                ctx.count(sect + ".one_pixel_axis")
+            for flag in ("future", "time", "by_name"):
+                if c.get(flag):
+                    ctx.count("%s.variant_%s" % (sect, flag))
+            if sect == "cf" and c["mode"] == 1:
+                ctx.count("cf.uconv_rows_checked", len(o.get("tab", [])))
             for key, what in fails:
                 ctx.add_failure(key, "%s [%s %s %dx%d extent %s]" % (what, sect, tags["fam"], c["area"]["h"], c["area"]["w"], c["area"]["extent"]),
                                 {"oracle": sect, "case": c, "tags": tags, "impl": o})
@@ -472,7 +498,9 @@ def run(ctx):
         lines = []
         for c, o in zip(pl["rotated"], obs["rotated"]):
             rot = not (c["tr"][1] == c["tr"][3] == 0)
-            ctx.case(("rot", repr(c)), nontrivial=True)
+            ctx.case(("rot", repr(c)), nontrivial=True, sample=None if "rotated" in sampled or not rot else {"rotated": {"transform": c["tr"], "impl": o}})
+            if rot:
+                sampled.add("rotated")
             ctx.count("rotated." + ("rotated" if rot else "unrotated"))
             for path in ("gdal", "rio"):
                 got = o.get(path)
@@ -484,7 +512,10 @@ def run(ctx):
                 if not rot and got is not None:
                     ctx.add_failure("C20.raster.error." + path, "unrotated transform %s refused with %s" % (c["tr"], got),
                                     {"oracle": "rotated", "case": c, "impl": o})
-            lines.append("(%s, %s)" % (f6(c["tr"]), bl(o.get("gdal") == "ValueError")))
+            if o.get("gdal") in (None, "ValueError") and o.get("rio") in (None, "ValueError") and o.get("transform") == c["tr"]:
+                lines.append("(%s, %s, %s)" % (f6(c["tr"]), bl(o.get("gdal") == "ValueError"), bl(o.get("rio") == "ValueError")))
+            else:
+                ctx.count("rotated.transform_not_kept_by_geotiff")
         texts += shards("rotated", "chk_rotated", lines)
 
     if worst:
